@@ -66,6 +66,15 @@ CHECKS = {
         "bound_text": "expression families: trees with <= budget operator/wrapper nodes (quick 1, thorough 2) over 13 non-operator positions, operator-in-position-in-operator sandwiches, operator chains (quick 2, thorough 3), e-op-e, if/else; 16 statement embeddings (quick: all 16 for small trees, used/discarded/function-tail for the other families); operators: one representative per VM dispatch group; operand kinds nil/int/float/bool symbolic, strings/arrays of length <= 2",
         "assumptions": ["generated trees are exactly trees the parser can produce (statement forms only in statement positions)"],
     },
+    "C08": {
+        "runs": [
+            {"harness": ["internal/vsess.VerifC08Session"], "pkgs": ["./internal/vsess"], "fuel": 8000000,
+             "params_quick": {"polykinds": 3}, "params_thorough": {"polykinds": 4},
+             "covers": {"VerifC08Session": ["failed", "did-not-fail"]}},
+        ],
+        "bound_text": "4 risky operations (division, indexing, assignment of an absent value to a bound global, call with wrong arity) whose failure class is decided by a symbolic operand x 8 dynamic depths (top level, nested call, while body, for body, inside a generator after a yield, generator in a loop at call depth, composed generator, lock-step loop body) x REPL/script mode x one or two failures in a row x 4 probes",
+        "assumptions": ["parse errors are not part of this harness (a rejected text never reaches the compiler: see C06)"],
+    },
     "C09": {
         "runs": [
             {"harness": ["internal/vsess.VerifC09Stmt"], "pkgs": ["./internal/vsess"], "fuel": 3000000,
@@ -157,6 +166,7 @@ CHECKS = {
 }
 
 LEVEL_TEXT = {
+    "C08": "Sessions are executed symbolically statement by statement next to the reference evaluator; whether and how the injected statement fails is decided by a solver variable (operand kind and value), so failing and non-failing runs of every placement are both explored; after the failure the machine state is read through accessors and every later statement must equal the reference in value, output and error.",
     "C02": "Differential symbolic execution against the reference evaluator (generators as internal iteration): generator definitions, compositions and consumers are enumerated by forking, yielded values are symbolic, generators write trace marks so that the compared output fixes the interleaving of generator and loop body; loop values, collected values and the session state afterwards are compared for all values.",
     "C03": "Each pure function is called first in a fresh session, then after a solver-chosen history and in a solver-chosen dynamic placement; every call is compared with the reference evaluator's result for symbolic arguments, so a result that depends on what ran before (stack growth, recycled contexts, stale frames) is a failed solver-decided assertion.",
     "C04": "Differential symbolic execution against the reference evaluator on generated programs whose variable names are drawn from a small pool so that globals, parameters, locals, loop variables and captured variables collide in every combination; after every call each global is read back on both sides and every returned closure is called after other calls have reused the stack. Literal values are symbolic, so agreement is a solver verdict over all values.",
